@@ -1205,3 +1205,135 @@ Proof.
     + destruct (md s); destruct (0 <? cq _); try destruct (psub s =? 0);
         cbn [polls after_enter_ok set_p consume_all consume]; intros H; exfalso; apply H; reflexivity.
 Qed.
+
+(** ** Non-vacuity of the interrupted enter, and what a retrying poll would lose *)
+
+(** A wake() before the poll (nobody polling: only the awoken bit is set, no message), then the
+    poll; its first [io_uring_enter] (zero timeout: [set_polling(true)] reported "awoken") is
+    interrupted. *)
+Definition eintr_schedule : list ev :=
+  [W 0]                                                 (* fetch_or: 00 -> 10; the call is done *)
+  ++ [P; P; P; P]                                       (* loads, set_polling(true): awoken; load SQ head *)
+  ++ [PI]                                               (* load SQ tail + io_uring_enter: EINTR *)
+  ++ [P; P; P; P; P; P].                                (* the code as it is: swap(NOT_POLLING), reload, store head,
+                                                           end-of-poll wake_blocked_futures, return *)
+
+(** The code as it is: the poll returns, nothing is owed. In each mode. *)
+Definition interrupted_then_returns (m : mode) : Prop :=
+  valid (init m 8 0 1 [1%nat]) eintr_schedule
+  /\ (let s := fst (run step (init m 8 0 1 [1%nat]) (firstn 5 eintr_schedule)) in
+      (pp s = PEnterT \/ pp s = PEnterFlags) /\ aw s = true /\ owed s = true
+      /\ pstate s = IS_POLLING /\ cq s = 0 /\ all_wakers_finished s)
+  /\ (let s := fst (run step (init m 8 0 1 [1%nat]) (firstn 6 eintr_schedule)) in
+      pp s = PClearPollingIntr /\ owed s = true)
+  /\ (let s := fst (run step (init m 8 0 1 [1%nat]) eintr_schedule) in
+      pp s = PIdle /\ polls s = O /\ pstate s = NOT_POLLING /\ owed s = false /\ lost s = false).
+
+(** Kernel-thread mode has one load less before the call (flags instead of head + tail). *)
+Definition eintr_schedule_kthread : list ev :=
+  [W 0] ++ [P; P; P] ++ [PI] ++ [P; P; P; P; P; P].
+
+Example eintr_example_default : interrupted_then_returns Default.
+Proof.
+  unfold interrupted_then_returns. cbv zeta.
+  split; [apply validb_sound; vm_compute; reflexivity|].
+  split; [split; [left; vm_compute; reflexivity|]; repeat split; try (vm_compute; reflexivity);
+          apply all_wakers_finished_b; vm_compute; reflexivity|].
+  split; vm_compute; repeat split; reflexivity.
+Qed.
+
+Example eintr_example_single : interrupted_then_returns SingleIssuer.
+Proof.
+  unfold interrupted_then_returns. cbv zeta.
+  split; [apply validb_sound; vm_compute; reflexivity|].
+  split; [split; [left; vm_compute; reflexivity|]; repeat split; try (vm_compute; reflexivity);
+          apply all_wakers_finished_b; vm_compute; reflexivity|].
+  split; vm_compute; repeat split; reflexivity.
+Qed.
+
+Example eintr_example_kthread :
+  valid (init KernelThread 8 0 1 [1%nat]) eintr_schedule_kthread
+  /\ (let s := fst (run step (init KernelThread 8 0 1 [1%nat]) (firstn 4 eintr_schedule_kthread)) in
+      pp s = PEnterFlags /\ aw s = true /\ owed s = true /\ pstate s = IS_POLLING /\ cq s = 0)
+  /\ (let s := fst (run step (init KernelThread 8 0 1 [1%nat]) eintr_schedule_kthread) in
+      pp s = PIdle /\ polls s = O /\ pstate s = NOT_POLLING /\ owed s = false /\ lost s = false).
+Proof.
+  cbv zeta. split; [apply validb_sound; vm_compute; reflexivity|].
+  split; vm_compute; repeat split; reflexivity.
+Qed.
+
+(** A signal while the poll is blocked, nothing owed: the poll returns as well (and the next one
+    blocks again: nobody wakes it, nothing is owed, the scheduler may report it stuck). *)
+Example eintr_example_blocked :
+  let s0 := init Default 8 0 2 [] in
+  let es := [P; P; P; P; P] ++ [PI] ++ [P; P; P; P; P; P] ++ [P; P; P; P; P] ++ [Stuck] in
+  valid s0 es
+  /\ (let s := fst (run step s0 (firstn 5 es)) in pp s = PInKernel /\ psub s = 0 /\ polls s = 2%nat)
+  /\ (let s := fst (run step s0 (firstn 6 es)) in pp s = PClearPollingIntr)
+  /\ (let s := fst (run step s0 (firstn 12 es)) in pp s = PIdle /\ polls s = 1%nat)
+  /\ (let s := fst (run step s0 es) in polls s = 1%nat /\ owed s = false /\ lost s = false).
+Proof.
+  cbv zeta. split; [apply validb_sound; vm_compute; reflexivity|].
+  repeat split; vm_compute; reflexivity.
+Qed.
+
+(** Validity of a schedule for the retrying variant (same [ev_ok]). *)
+Inductive valid_loop : st -> list ev -> Prop :=
+  | valid_loop_nil s : valid_loop s []
+  | valid_loop_cons s e es : ev_ok s e -> valid_loop (fst (step_loop s e)) es -> valid_loop s (e :: es).
+
+Fixpoint valid_loopb (s : st) (es : list ev) : bool :=
+  match es with
+  | [] => true
+  | e :: r => ev_okb s e && valid_loopb (fst (step_loop s e)) r
+  end.
+
+Lemma valid_loopb_sound es : forall s, valid_loopb s es = true -> valid_loop s es.
+Proof.
+  induction es as [|e es IH]; intros s H; [constructor|].
+  cbn [valid_loopb] in H. apply andb_true_iff in H. destruct H as [H1 H2].
+  constructor; [apply ev_okb_sound; exact H1|apply IH; exact H2].
+Qed.
+
+(** The same beginning; the retrying poll runs [set_polling(true)] again (not awoken any more: the
+    first swap consumed the bit), enters without a timeout and blocks. *)
+Definition eintr_retry_schedule : list ev :=
+  [W 0] ++ [P; P; P; P] ++ [PI]
+  ++ [P]                                                (* swap(NOT_POLLING) ... and around again *)
+  ++ [P; P; P].                                         (* set_polling(true): not awoken; head; tail + enter: blocks *)
+
+(** Refuted for a poll that waits again after EINTR (seeded change C11-e; NOT the code as it
+    is): a valid interleaving — one wake() before the only poll, the poll's first enter
+    interrupted — after which the poller is blocked with both queues empty, every waker finished
+    and the wake-up still owed (no poll has returned since the wake): the scheduler's "stuck" is
+    admissible and the wake-up is lost. The code as it is returns on the same events
+    ([eintr_example_default]). *)
+Definition eintr_retry_loses_wakeup : Prop :=
+  exists es,
+    valid_loop (init Default 8 0 1 [1%nat]) es
+    /\ nth_error es 0 = Some (W 0) /\ nth_error es 5 = Some PI
+    /\ (let s := fst (run step_loop (init Default 8 0 1 [1%nat]) (firstn 5 es)) in
+        pp s = PEnterT /\ aw s = true /\ owed s = true)
+    /\ (let s := fst (run step_loop (init Default 8 0 1 [1%nat]) es) in
+        pp s = PInKernel /\ polls s = 1%nat /\ aw s = false /\ pstate s = IS_POLLING
+        /\ cq s = 0 /\ sqh s = sqt s /\ all_wakers_finished s
+        /\ owed s = true /\ ev_ok s Stuck
+        /\ lost (fst (step_loop s Stuck)) = true).
+
+Lemma eintr_retry_loses_wakeup_refuted : eintr_retry_loses_wakeup.
+Proof.
+  exists eintr_retry_schedule. cbv zeta.
+  split; [apply valid_loopb_sound; vm_compute; reflexivity|].
+  split; [reflexivity|]. split; [reflexivity|].
+  split; [vm_compute; repeat split; reflexivity|].
+  assert (Hfin : all_wakers_finished
+                   (fst (run step_loop (init Default 8 0 1 [1%nat]) eintr_retry_schedule)))
+    by (apply all_wakers_finished_b; vm_compute; reflexivity).
+  split; [vm_compute; reflexivity|]. split; [vm_compute; reflexivity|].
+  split; [vm_compute; reflexivity|]. split; [vm_compute; reflexivity|].
+  split; [vm_compute; reflexivity|]. split; [vm_compute; reflexivity|].
+  split; [exact Hfin|]. split; [vm_compute; reflexivity|].
+  split; [|vm_compute; reflexivity].
+  split; [vm_compute; reflexivity|]. split; [vm_compute; reflexivity|].
+  split; [vm_compute; reflexivity|exact Hfin].
+Qed.
